@@ -31,30 +31,32 @@ type Obligation struct {
 }
 
 type Exec struct {
-	eng         *Engine
-	topFn       *ssa.Function
-	topC        *FuncContract
-	assumes     []*Term
-	assumeSeen  map[int]bool
-	obligations []*Obligation
-	warnings    []string
-	warnSeen    map[string]bool
-	safety      bool
-	inlineDepth int
-	nameCount   map[string]int
-	abstracted  map[string]bool // callees abstracted (havoc)
-	inlined     map[string]bool
-	usedContr   map[string]bool
-	pointSetHit map[int]bool
-	assertHit   map[int]bool    // program-point assertions of the top contract that met their call
-	assumedTerm map[string]bool // callees under contract assumed to terminate (no `terminates` of their own)
-	budget      int
-	inSpec      int
-	usedInv     map[string]bool
-	readKeys    map[string]bool
-	specMemo    map[string]Value
-	readLog     *[]heapRead
-	reveal      map[string]bool
+	eng          *Engine
+	topFn        *ssa.Function
+	topC         *FuncContract
+	assumes      []*Term
+	assumeSeen   map[int]bool
+	obligations  []*Obligation
+	warnings     []string
+	warnSeen     map[string]bool
+	safety       bool
+	inlineDepth  int
+	nameCount    map[string]int
+	abstracted   map[string]bool // callees abstracted (havoc)
+	inlined      map[string]bool
+	usedContr    map[string]bool
+	callBindings []Value       // closure bindings of the call whose contract is being applied
+	callFn       *ssa.Function // and its function
+	pointSetHit  map[int]bool
+	assertHit    map[int]bool    // program-point assertions of the top contract that met their call
+	assumedTerm  map[string]bool // callees under contract assumed to terminate (no `terminates` of their own)
+	budget       int
+	inSpec       int
+	usedInv      map[string]bool
+	readKeys     map[string]bool
+	specMemo     map[string]Value
+	readLog      *[]heapRead
+	reveal       map[string]bool
 }
 
 type deferred struct {
@@ -281,6 +283,7 @@ func (ex *Exec) ownWriteCheck(fr *Frame, st *State, loc *Loc, fname string, pos 
 		return
 	}
 	ex.atomicOnlyCheck(fr, st, loc, pos, "store")
+	ex.guardCheck(fr, st, loc, pos, "store")
 	ex.ownAccessCheck(fr, st, loc, fname, pos, ex.topC.OwnWrites, "ownwrite", "store into")
 }
 
@@ -291,11 +294,41 @@ func (ex *Exec) ownReadCheck(fr *Frame, st *State, loc *Loc, fname string, pos t
 		return
 	}
 	ex.atomicOnlyCheck(fr, st, loc, pos, "load")
+	ex.guardCheck(fr, st, loc, pos, "load")
 	ex.ownAccessCheck(fr, st, loc, fname, pos, ex.topC.OwnReads, "ownread", "load from")
 }
 
 // atomicOnlyCheck: a plain load or store must not touch the cell of a captured variable the contract reserves for
 // sync/atomic access.
+// guardCheck: lock discipline. A plain access to a guarded key needs the guard's condition in the current state.
+func (ex *Exec) guardCheck(fr *Frame, st *State, loc *Loc, pos token.Pos, verb string) {
+	if ex.topC == nil || len(ex.topC.Guards) == 0 || ex.inSpec > 0 || loc == nil || loc.Kind != LRef || ex.topFn == nil {
+		return
+	}
+	var top *Frame
+	for f := fr; f != nil; f = f.parent {
+		top = f
+	}
+	n := len(layout(loc.T))
+	for gi, g := range ex.topC.Guards {
+		hit := false
+		for j := 0; j < n && loc.Off+j < len(loc.Keys); j++ {
+			if strings.HasPrefix(loc.Keys[loc.Off+j], g.Prefix) {
+				hit = true
+			}
+		}
+		if !hit {
+			continue
+		}
+		cond, err := ex.compileBool(top, st, top.entry, g.Cond.E, true)
+		if err != nil {
+			ex.bindingError(shortName(ex.topFn.String()), "guarded", fmt.Sprint(gi+1), g.Cond, err)
+			continue
+		}
+		ex.prove(shortName(ex.topFn.String()), st, "guarded", g.Prefix+":"+ex.srcLabel(pos), cond, "plain "+verb+" of "+loc.Keys[loc.Off]+" needs: "+g.Cond.Text, pos)
+	}
+}
+
 func (ex *Exec) atomicOnlyCheck(fr *Frame, st *State, loc *Loc, pos token.Pos, verb string) {
 	if ex.topC == nil || len(ex.topC.AtomicOnly) == 0 || ex.inSpec > 0 || loc == nil || loc.Kind != LRef || ex.topFn == nil {
 		return
